@@ -18,6 +18,7 @@ fn main() {
         "repair" => h::eng_repair::main(rest),
         "reader" => h::eng_reader::main(rest),
         "transfer" => h::eng_transfer::main(rest),
+        "tamper" => h::eng_tamper::main(rest),
         e => {
             eprintln!("unknown engine {e}");
             std::process::exit(2);
